@@ -148,6 +148,11 @@ def main():
             broken.append(f"theorem {t}: {info.get('error') or 'depends on axioms ' + str(info.get('axioms'))}")
     for h in hits:
         broken.append("forbidden construct in Lean sources: " + h)
+    lc = None
+    if a.tier == "thorough" and not build_failed and has_props:
+        lc = core.leanchecker(props_mod)
+        if lc["rc"] != 0:
+            broken.append("leanchecker rejected the compiled modules of " + props_mod + ": " + lc["tail"][-400:])
 
     # 3./4. correspondence and predicate
     try:
@@ -157,6 +162,36 @@ def main():
     except core.InfraError as e:
         print("INFRA:", e)
         return 2
+    except Exception as e:  # noqa: BLE001
+        # An exception that escapes from the implementation while the harness prepares a *valid* ingredient (a wrap, an
+        # encode, ...) is a failing input in its own right: on the unchanged tree every such call succeeds (all seeds).
+        # An exception raised by the harness itself is an infrastructure problem.
+        import traceback
+        tb = traceback.extract_tb(e.__traceback__)
+        repo = os.path.realpath(core.REPO)
+        in_impl = [f for f in tb if os.path.realpath(f.filename).startswith(repo + os.sep)]
+        text = "".join(traceback.format_exception(type(e), e, e.__traceback__))
+        if not in_impl:
+            print("INFRA: harness error\n" + text[-3000:])
+            return 2
+        hdir = os.path.realpath(os.path.dirname(os.path.abspath(__file__)))
+        harness_frame = ([f for f in tb if os.path.realpath(f.filename).startswith(hdir + os.sep)] or [tb[0]])[-1]
+        msg = (f"the implementation raised {type(e).__name__}: {e} on a valid call made by the harness "
+               f"({os.path.basename(harness_frame.filename)}:{harness_frame.lineno} `{harness_frame.line}`), "
+               f"at {os.path.relpath(in_impl[-1].filename, repo)}:{in_impl[-1].lineno}")
+        path = write_replay(pid, seed, 0, {"property": pid, "kind": "failing-input", "messages": [msg], "traceback": text[-4000:],
+                                          "replay": f"VERIF_SEED={seed} ./check {pid} --tier {a.tier}"})
+        os.makedirs(os.path.join(VERIF, "evidence"), exist_ok=True)
+        with open(os.path.join(VERIF, "evidence", f"{pid}.json"), "w") as fh:
+            json.dump({"property_id": pid, "tier": a.tier, "seed": seed, "level": "proof",
+                       "coverage": {"obligations": len(theorems), "discharged": discharged,
+                                    "checker_cmd": aud.get("checker_cmd") or "lake build PsecModel",
+                                    "trusted_base": mod.TRUSTED_BASE if hasattr(mod, "TRUSTED_BASE") else [],
+                                    "evaluations": 0, "samples": [{"note": "generation stopped: the implementation raised on a valid harness call", "detail": msg[:300]}]},
+                       "wall_s": round(time.time() - t0, 2), "violations": 1}, fh, indent=1)
+        print(f"VIOLATION property={pid} replay={path}")
+        print("  detail:", msg[:400])
+        return 1
     if hasattr(mod, "second_pass"):
         mod.second_pass(cases, replies)
     dis, fails = evaluate(cases, replies)
@@ -245,6 +280,7 @@ def main():
             "hypotheses": getattr(mod, "HYPOTHESES", []),
             "exhaustive": bool(getattr(mod, "EXHAUSTIVE", {}).get(a.tier, False)),
         },
+        "independent_recheck": ({k: lc[k] for k in ("cmd", "rc", "wall_s")} | {"modules": len(lc["modules"])}) if lc else None,
         "assumptions": getattr(mod, "ASSUMPTIONS", []),
         "wall_s": round(time.time() - t0, 2),
         "violations": violations,
